@@ -549,7 +549,8 @@ def run_as_completed(job, root: Path):
     anomalies = []
     argseen = [dict(NOARG) for _ in range(job["n"])]
     try:
-        for r in app.as_completed(inputs, show_progress=False):
+        kw = {"parallel": True, "par_kw": {"max_workers": job["w"]}} if job.get("w", 0) > 0 else {}
+        for r in app.as_completed(inputs, show_progress=False, **kw):
             src = index_of_name(get_unique_id(r.source))
             obj = getattr(r, "obj", r)
             if isinstance(obj, NotCompleted):
